@@ -328,6 +328,8 @@ func c07cancelLeg(rc *sim.RunCtx, hist []*TxSpec, target int, seqVal bool, devKi
 				if len(x)+len(y) > 0 {
 					ff := copyFields(f)
 					ff["store"] = d.name
+					ff["device"] = devName(devKind)
+					ff["extra_merge_parents_only"] = fmt.Sprint(d.name == "device" && mergeParentsOnly(cw.w, x, y))
 					rc.Report(sim.Item{Prop: "C07", Clause: "C07.cancel-diverged-after-retry", Fields: ff, Detail: fmt.Sprintf("%s after the (repeated) cancel differs from the fault-free cancel: missing %v extra %v", d.name, x, y)})
 				}
 			}
@@ -476,6 +478,7 @@ func c07one(rc *sim.RunCtx, hist []*TxSpec, target int, coldSchema, seqVal bool,
 				}
 			}
 			ff["extra_key_leaves_only"] = fmt.Sprint(keyOnly)
+			ff["extra_merge_parents_only"] = fmt.Sprint(mergeParentsOnly(w, a, b))
 			rc.Report(sim.Item{Prop: "C07", Clause: "C07.device-diverged-after-retry", Fields: ff, Detail: fmt.Sprintf("device differs from the fault-free run %s: missing %v extra %v", when, a, b)})
 		}
 		a, b = diffSets(refSnaps[i].intended, s.intended)
@@ -513,6 +516,21 @@ func c07one(rc *sim.RunCtx, hist []*TxSpec, target int, coldSchema, seqVal bool,
 		cmp(len(hist)-1, "at-end")
 	}
 	_ = sort.Strings
+	return true
+}
+
+// mergeParentsOnly: the device holds nothing more than key leaves of list entries and bare presence containers in addition -
+// the nodes an XML edit creates on a NETCONF device merely by naming them as parents of a delete.
+func mergeParentsOnly(w *world.World, missing, extra []string) bool {
+	if len(missing) > 0 || len(extra) == 0 {
+		return false
+	}
+	for _, e := range extra {
+		n := w.SI.Node(mustPath(w, strings.SplitN(e, " = ", 2)[0]))
+		if n == nil || !(n.IsKeyLeaf() || (n.Kind == world.KContainer && n.Presence)) {
+			return false
+		}
+	}
 	return true
 }
 
